@@ -163,6 +163,7 @@ fn run(which: &str, tier: Tier, shard: usize, n: usize) -> Report {
 		let tree = if w == "maturity-locks" { universe_mat(scr, tier) } else { universe_nrd(scr) };
 		let mut inv = Inv13 { inst: w.clone() };
 		let mut ex = Explorer::new(&tree, scr, Options::NONE, &w);
+		ex.live_check = 2;
 		ex.shard = (shard, n);
 		let evs: Vec<Ev> = (0..tree.blocks.len()).filter(|i| tree.valid(*i).is_ok()).map(Ev::B).collect();
 		let probes: Vec<Ev> = (0..tree.blocks.len()).filter(|i| tree.valid(*i).is_err()).map(Ev::B).collect();
